@@ -12,7 +12,7 @@ package broadcast
 //     light block was received from.
 // Time is never slept on for a verdict.  The protocol reads time through types.Now(), the NTP-corrected clock whose
 // correction is set with the exported types.SetTimeDelta (what the node's fixTime routine does, +-300 s).  Every case
-// installs a generated correction BEFORE the light block arrives (0 in half of the cases, otherwise +-[1 s, 300 s]
+// installs a generated correction BEFORE the light block arrives (0 in half of the cases, otherwise +-[1 s, 290 s]
 // including values around the pending timeout) and keeps it; "X of protocol time passes" = SetTimeDelta(current + X),
 // restored at the end of the case (the correction is process-global; cases of a process run one after the other).  The
 // configured timeout is 60 s (20 s in the same-height property), "the timeout passes" is an advance of 1.5 timeouts,
@@ -68,7 +68,17 @@ type c34Clock struct {
 }
 
 func c34StartClock(deltaSec int, timeout time.Duration) *c34Clock {
-	orig := int64(types.Now().Sub(time.Now()).Round(time.Millisecond)) // the correction in force (0 in a test process)
+	// the correction in force (0 in a test process): corrected minus raw clock; the raw clock is read a moment later, so
+	// every sample errs on the negative side by the scheduling gap - take the best of a few samples
+	orig := int64(-time.Hour)
+	for i := 0; i < 7; i++ {
+		if d := int64(types.Now().Sub(time.Now())); d > orig {
+			orig = d
+		}
+	}
+	if orig = int64(time.Duration(orig).Round(10 * time.Millisecond)); orig > -int64(50*time.Millisecond) && orig < int64(50*time.Millisecond) {
+		orig = 0 // no correction installed (nothing in a test process runs the NTP routine)
+	}
 	k := &c34Clock{orig: orig, cur: orig, timeout: timeout, t0: time.Now()}
 	k.advance(time.Duration(deltaSec) * time.Second)
 	return k
@@ -77,7 +87,15 @@ func c34StartClock(deltaSec int, timeout time.Duration) *c34Clock {
 func (k *c34Clock) advance(d time.Duration) {
 	k.cur += int64(d)
 	k.adv += d
-	if k.cur > int64(300*time.Second) || k.cur < -int64(300*time.Second) {
+	// SetTimeDelta silently resets anything beyond +-300 s to 0; the generator keeps 10 s away from that edge, and a
+	// value that would still leave the range by less than a second is clamped instead of giving up
+	const lim = int64(299500 * time.Millisecond)
+	switch {
+	case k.cur > lim && k.cur <= lim+int64(1500*time.Millisecond):
+		k.cur = lim
+	case k.cur < -lim && k.cur >= -lim-int64(1500*time.Millisecond):
+		k.cur = -lim
+	case k.cur > lim || k.cur < -lim:
 		lib.Inconclusive("harness: clock correction %d ns outside what SetTimeDelta accepts", k.cur)
 	}
 	types.SetTimeDelta(k.cur)
@@ -94,13 +112,13 @@ func (k *c34Clock) early() {
 	}
 }
 
-// c34GenDelta: 0 in half of the cases, otherwise +-[1 s, 300 s] with values around the timeout; hi is the largest
-// correction that leaves room for the advances the case will add (SetTimeDelta accepts +-300 s).
+// c34GenDelta: 0 in half of the cases, otherwise within [-290 s, hi] with values around the timeout; hi is the largest
+// correction that leaves room for the advances the case will add and 10 s of margin (SetTimeDelta accepts +-300 s).
 func c34GenDelta(t *rapid.T, timeout time.Duration, hi int) int {
 	if rapid.Bool().Draw(t, "clockCorrected") {
 		T := int(timeout / time.Second)
-		d := rapid.SampledFrom([]int{1, -1, 5, -5, T / 2, -T / 2, T - 1, -(T - 1), T, -T, T + 1, -(T + 1), 2 * T, -2 * T, hi, -299, -300,
-			rapid.IntRange(-300, hi).Draw(t, "anyDelta")}).Draw(t, "delta")
+		d := rapid.SampledFrom([]int{1, -1, 5, -5, T / 2, -T / 2, T - 1, -(T - 1), T, -T, T + 1, -(T + 1), 2 * T, -2 * T, hi, -289, -290,
+			rapid.IntRange(-290, hi).Draw(t, "anyDelta")}).Draw(t, "delta")
 		if d > hi {
 			d = hi
 		}
@@ -157,7 +175,7 @@ func c34Gen(t *rapid.T) c34Case {
 	c.Drive = rapid.SampledFrom([]string{"direct", "direct", "loop"}).Draw(t, "drive")
 	c.Height = rapid.Int64Range(2, 1000).Draw(t, "height")
 	c.Early = rapid.SampledFrom([]int{0, 0, 20, 45}).Draw(t, "early")
-	c.Delta = c34GenDelta(t, c34Timeout, 300-45-90)
+	c.Delta = c34GenDelta(t, c34Timeout, 290-45-90)
 	return c
 }
 
@@ -479,7 +497,7 @@ type c34MultiCase struct {
 
 func c34GenMulti(t *rapid.T) c34MultiCase {
 	c := c34MultiCase{Height: rapid.Int64Range(2, 1000).Draw(t, "height"), Sequential: rapid.Bool().Draw(t, "sequential")}
-	c.Delta = c34GenDelta(t, c34MultiTimeout, 300-3*30)
+	c.Delta = c34GenDelta(t, c34MultiTimeout, 290-3*30)
 	k := rapid.IntRange(2, 3).Draw(t, "siblings")
 	senders := rapid.Permutation([]int{0, 1, 2}).Draw(t, "senders")
 	for i := 0; i < k; i++ {
